@@ -133,6 +133,10 @@ def _top(t):
 	}
 	if v.Edge {
 		b.WriteString("    emit(\"out/top\", \"top:\" + slurp(\"out/mid\") + \":\" + slurp(\"out/leaf\"))\n")
+		if v.Diamond {
+			// the same dependency spelled a second, non-canonical way
+			extra += ", \"//pkg/:leaf\""
+		}
 		b.WriteString("target(name=\"top\", function=_top, deps=[\":mid\", \"//pkg:leaf\"" + extra + "])\n")
 	} else {
 		b.WriteString("    emit(\"out/top\", \"top:\" + slurp(\"out/mid\"))\n")
